@@ -24,6 +24,12 @@ class Env:
         self.seed = seed
         self.harness = os.path.join(here, "harness")
         self.repo = os.path.normpath(os.path.join(here, "..", "repo"))
+        if not os.path.exists(self.repo) and os.path.isdir("/repo") and os.path.normpath(here) != "/verif":
+            # a snapshot of /verif elsewhere (vp run): the harness' path dependency ../../repo must still reach /repo
+            try:
+                os.symlink("/repo", self.repo)
+            except OSError:
+                pass
         self.corpus = os.path.join(here, "corpus")
         self.work = os.path.join(here, "work")
         os.makedirs(self.work, exist_ok=True)
